@@ -644,7 +644,7 @@ def main():
     c.floor("compared_both_resolved", 6000 if quick else 150000)
     c.floor("private_copy_probes", 6000 if quick else 150000)
     c.floor("ops_applied", 3000 if quick else 80000)
-    c.floor("twin_updates_checked", 400 if quick else 10000)
+    c.floor("twin_updates_checked", 300 if quick else 8000)
     c.floor("twin_via_set_platform_stage_variable", 30 if quick else 800)
     c.floor("compared_typed", 6000 if quick else 150000)
     c.floor("contract_evaluations", 50 if quick else 300)
